@@ -22,6 +22,7 @@
 (assert (forall ((s Bytes) (p Bytes)) (! (=> (and (<= (blen p) (blen s)) (= (bsub s 0 (blen p)) p)) (hasPrefix s p)) :pattern ((hasPrefix s p)))))
 (assert (forall ((s Bytes) (p Bytes)) (! (=> (and (hasPrefix s p) (= (blen s) (blen p))) (= s p)) :pattern ((hasPrefix s p)))))
 (assert (forall ((a Bytes) (b Bytes)) (! (hasPrefix (bcat a b) a) :pattern ((hasPrefix (bcat a b) a)))))
+(assert (forall ((a Bytes) (b Bytes) (c Bytes)) (! (= (hasPrefix (bcat a b) (bcat a c)) (hasPrefix b c)) :pattern ((hasPrefix (bcat a b) (bcat a c))))))
 ; L-prefix-lt: a proper extension is greater than its prefix
 (assert (forall ((s Bytes) (p Bytes)) (! (=> (and (hasPrefix s p) (not (= s p))) (< (rank p) (rank s))) :pattern ((hasPrefix s p)))))
 ; L-convex: q <= a <= b and b starts with q  ==>  a starts with q
